@@ -288,3 +288,50 @@ func Wide(env *ty.Env, rng *rand.Rand, t *ty.Ty, depth int) *ty.Val {
 	}
 	panic("gostring: Wide on unsupported kind")
 }
+
+// Alias returns a copy of an instantiated value in which pointer targets with identical contents are
+// made the very same object (same address ids throughout the shared subtree), or nil when the value has
+// no two such pointers. The text cannot (and need not) reproduce the sharing: the evaluated value is a
+// tree that is still structurally equal.
+func Alias(v *ty.Val) *ty.Val {
+	erase := func(x *ty.Val) string {
+		c := x.Clone()
+		var z func(*ty.Val)
+		z = func(y *ty.Val) {
+			y.Addr = 0
+			for _, e := range y.Elems {
+				z(e)
+			}
+		}
+		z(c)
+		return c.Wire()
+	}
+	first := map[string]*ty.Val{}
+	changed := false
+	var walk func(x *ty.Val, inKey bool) *ty.Val
+	walk = func(x *ty.Val, inKey bool) *ty.Val {
+		if x.K == ty.VPtr && !inKey {
+			k := erase(x)
+			if f, ok := first[k]; ok {
+				changed = true
+				return f.Clone()
+			}
+		}
+		c := *x
+		if x.Elems != nil {
+			c.Elems = make([]*ty.Val, len(x.Elems))
+			for i, e := range x.Elems {
+				c.Elems[i] = walk(e, inKey || (x.K == ty.VMap && i%2 == 0))
+			}
+		}
+		if x.K == ty.VPtr && !inKey {
+			first[erase(x)] = &c
+		}
+		return &c
+	}
+	out := walk(v, false)
+	if !changed {
+		return nil
+	}
+	return out
+}
